@@ -1,4 +1,5 @@
 import Crd.Props.C14
+import Crd.Props.IO
 #print axioms Crd.Props.C14.circles_build
 #print axioms Crd.Props.C14.rings_aligned
 #print axioms Crd.Props.C14.step_semantics
@@ -10,3 +11,4 @@ import Crd.Props.C14
 #print axioms Crd.Props.C14.spelling_independent
 #print axioms Crd.Props.C14.move_laws
 #print axioms Crd.Props.C14.chain_laws
+#print axioms Crd.Props.IO.io_sites_accounted
